@@ -156,7 +156,8 @@ fn main() {
                     }
                     // ---- second cycle: from the recovered state, every 1-op extension, clean reopen
                     // (non-torn images only in quick; all images in thorough)
-                    if !(thorough || !img.torn || ii % 7 == 0) {
+                    // (in quick: every crash-point image, every torn image that ends inside a length prefix, and every 7th other torn image)
+                    if !(thorough || !img.torn || img.label.starts_with("torn:wal:size-written") || ii % 7 == 0) {
                         continue;
                     }
                     let base_files = read_dir_files(&rec); // directory as left by recovery (may have rotated a torn log aside)
@@ -355,7 +356,7 @@ fn main() {
             "crash model = process death: bytes handed to write() survive in order; power-loss reordering of unsynced writes is not modelled (the log path has no fsync)".into(),
             "images are taken during the last operation of each history; earlier operations are the last operation of a shorter enumerated history".into(),
             "a batch counts as one operation".into(),
-            "quick tier runs the second cycle on crash-point images and every 7th torn image; thorough on all".into(),
+            "quick tier runs the second cycle on crash-point images, on every image torn inside a length prefix and on every 7th other torn image; thorough on all".into(),
         ],
     );
 }
